@@ -19,7 +19,7 @@ RULE = ("cases = generated well-formed plotfiles x every single site of the corr
 ASSUMPTIONS = ["strict.py is the specification of 'inconsistent' (lenient token grammar, see "
                "DESIGN 3.2)", "pool shim M1 in-process"]
 REQUIRED_OBS = {"mutants_in_scope": 500, "set:operators_in_scope": 14, "pairs_in_scope": 20,
-                "coords_mutants_in_scope": 20}
+                "coords_mutants_in_scope": 20, "cli_mutants": 30}
 TIMEOUT = {"quick": 400, "thorough": 2400}
 
 
@@ -118,6 +118,24 @@ def run_case(case, work, rec):
                 rec.seen("operators_in_scope", mu["op"] + ":" + str(mu.get("how", mu.get("what", ""))))
             judge(rec, (digest, str(muts), limit), f"{muts} limit_level={limit}",
                   any(nontrivial(mu) for mu in muts), fl, vn, vf, {"mutations": muts, "limit": limit})
+            # a sample through the entry point (failing mode is its default): it must not end normally
+            if rng.random() < 0.04:
+                args = ["taste", dst, "-v", "0"] + (["-bc"] if coords else []) + (["-l", str(limit)] if limit is not None else [])
+                pools.CTL.reset(mode="inproc", seed=3)
+                try:
+                    with common.argv(args):
+                        common.repo_module("amr_kitchen.taste.cli").main()
+                    ended = "returned normally"
+                except SystemExit as e:
+                    ended = "returned normally" if e.code in (0, None) else "exit"
+                except Exception:
+                    ended = "raised"
+                rec.count("cli_mutants")
+                if ended == "returned normally":
+                    rec.violation(f"taste entry point ended normally on an inconsistent plotfile: {muts} limit_level={limit}",
+                                  key=(digest, "cli", str(muts), limit), witness={"mutations": muts, "strict_flags": sorted(fl)[:3]})
+                else:
+                    rec.ok((digest, "cli", str(muts), limit), True)
 
     k, K = case.get("chunk", [0, 1])
     for mu in sites[k::K]:
